@@ -102,7 +102,7 @@ CLAIMS = {
                 'assertion, interface comparison of uncomparable types, slice buffer overrun) is reachable and an empty success is '
                 'impossible — for every document, unbounded depth and size. Correspondence: outcome classes of generated paths x '
                 'documents (both decodings, scalar/empty roots, int64-limit slices) against the model, workers isolate crashes; a '
-                'FunctionFailed error must be preceded by a failing user call.',
+                'FunctionFailed error must be preceded by a failing user call. From the path TEXT: C03_nonempty_or_error_from_text — every path of steps and filters (KeyDefs.fchain_path) returns a non-empty result or an error, never an empty success or a panic.',
         'note': NOTE_COMMON + EVAL_HYP, 'technique': T_EVAL},
     'C04': {
         'text': 'C04_no_shared_write (coq/Prop_C04.v): a call writes neither package-level verdict list and leaves the ghost write '
@@ -114,7 +114,7 @@ CLAIMS = {
         'text': 'C05_history_independent_partial / C05_state_restored (coq/Prop_C05.v): any history of calls of one parsed function '
                 'returns call by call what a call from the initial state returns (the state after a call is the initial state again). '
                 'Partial: identity/aliasing of returned Go slices with pooled buffers is not modelled; it is observed by the harness '
-                '(results re-read after later calls and pool churn; each call compared with a fresh Retrieve and with the model).',
+                '(results re-read after later calls and pool churn; each call compared with a fresh Retrieve and with the model). From the path TEXT: C05_history_independent_from_text — for every path of steps and filters the parsed function returns the same from any two admissible histories.',
         'note': NOTE_COMMON + EVAL_HYP, 'technique': T_EVAL + ' + history replay against fresh Retrieve'},
     'C06': {
         'text': 'PARTIAL. Proved: C06_eval_read_only_partial (a call writes no shared location of the model) and '
@@ -161,7 +161,7 @@ CLAIMS = {
                 'tree; C12_modes_parse_alike: Parse in plain mode returns exactly the flag-erased tree of Parse in accessor mode or the same '
                 'error — the 46 actions commute with flag erasure; C12_end_to_end combines them from the path text) selects the same cursors in the same order — one '
                 'result per value, each yielding it, same failures; parameters and operands are identical subtrees in both modes. '
-                'Direct oracle: every generated path evaluated in both modes with recording functions (values, order, errors, argument logs).',
+                'Direct oracle: every generated path evaluated in both modes with recording functions (values, order, errors, argument logs). From the path TEXT: C12_modes_agree_from_text — every path of steps and filters returns the same values in the same order with accessor mode off (plain) and on (wrapped with the locations the walk reaches), or fails in both.',
         'note': NOTE_COMMON, 'technique': 'Coq proof on the specification (mutual induction) + paired-mode oracle + correspondence'},
     'C14': {
         'text': 'C14_call_log (coq/Prop_C14.v, SpecCalls.v): for every well-formed tree whose filters contain no user function, the call '
@@ -235,7 +235,7 @@ CLAIMS = {
                 '(AccText.v): C13_accessor_from_text — the path spelling a location (names in any spelling, decimal indexes) returns exactly one '
                 'settable accessor with that location, holding the returned value, written value read back, disjoint locations untouched; '
                 'C13_function_outputs_from_text — results of steps followed by filter functions carry no location. The harness sends '
-                'location-spelling texts (driver confirms Coq chain_path) and expects exactly that location from the sentinel probe.',
+                'location-spelling texts (driver confirms Coq chain_path) and expects exactly that location from the sentinel probe. From the path TEXT for every path of steps and filters: C13_all_results_are_locations_from_text — in accessor mode every result is a settable accessor at the location the walk reaches, holding the returned value, with the lens laws there.',
         'note': NOTE_COMMON + EVAL_HYP + ' Documents are trees (no shared sub-map). Members of a function output are outside the property.',
         'technique': T_EVAL + ' + lens laws + set-and-diff oracle'},
     'C20': {
